@@ -10,4 +10,11 @@ CHECKS = {
         technique="runtime monitoring: exhaustive-short + random string workload, read-back oracle by plain re-execution, icontract post-conditions on triple_quote/value_to_token",
         ref="DESIGN.md section 4 C12",
     ),
+    "C02": dict(
+        level="exploration",
+        text="Generated (previous text, observed value) pairs: the previous text is a hostile-layout rendering of a value tree (hand-written sub-expressions, comments, redundant parentheses, positional/keyword constructor arguments), the observed value comes from chained edit scripts or is unrelated; one run of the real code approving create+fix, then the rewritten module is re-executed with inline-snapshot inactive and every comparison (also those after an earlier failing one) must hold. Random exploration; evidence counts sites, edit kinds, change classes emitted.",
+        note="Exemptions by construction (one value per == site, no user-controlled parts - C10). Internal errors are counted as crashed and left to C18. In-process driver.",
+        technique=T_INPROC + " (plain re-execution after a create+fix run)",
+        ref="DESIGN.md section 4 C02",
+    ),
 }
